@@ -19,6 +19,9 @@ from mc import sched
 from mc.core import NPROC, Part, h64
 
 
+_WARM = set()
+
+
 def harness_factory(spec):
     modname, fname, params = spec
     mod = importlib.import_module(modname)
@@ -80,6 +83,12 @@ def explore_chunk(args):
         stack = [prefix]
         n = 0
         obs_seen = set()
+        if spec not in _WARM:
+            _WARM.add(spec)
+            if getattr(make(), "opcode_funcs", ()):
+                # opcode-level events only settle once this process's interpreter has instrumented the code objects
+                run_harness(make, [], None, T, count_states=False)
+                run_harness(make, [], None, T, count_states=False)
         while stack:
             if n >= budget:
                 leftover = stack
